@@ -85,6 +85,9 @@ func (h265dp *h265Depacketizer) depacketizeStap(packet *Packet) (err error) {
 
 	// 循环读取被封装的NAL
 	for {
+		if off+2 > len(payload) { // 剩余数据不足以容纳长度字段
+			break
+		}
 		// nal长度
 		nalSize := ((uint16(payload[off])) << 8) | uint16(payload[off+1])
 		if nalSize < 1 {
@@ -92,6 +95,9 @@ func (h265dp *h265Depacketizer) depacketizeStap(packet *Packet) (err error) {
 		}
 
 		off += 2
+		if off+int(nalSize) > len(payload) { // 聚合单元被截断，整体丢弃
+			return
+		}
 		frame := &codec.Frame{
 			MediaType: codec.MediaTypeVideo,
 			Payload:   make([]byte, nalSize),
